@@ -217,10 +217,38 @@ func negateOp(op token.Token) token.Token {
 
 // condFacts decomposes cond (assumed to evaluate to truth) into atomic facts.
 func condFacts(cond ssa.Value, truth bool, iff *ssa.If) []Fact {
+	out := condFactsRaw(cond, truth, iff)
+	// a fact about a value is a fact about the values known to equal it (gvn.go)
+	n := len(out)
+	for i := 0; i < n; i++ {
+		f := out[i]
+		xs := append([]ssa.Value{f.X}, sameValueClass(f.X)...)
+		ys := []ssa.Value{f.Y}
+		if f.Y != nil {
+			ys = append(ys, sameValueClass(f.Y)...)
+		}
+		if len(xs) == 1 && len(ys) == 1 {
+			continue
+		}
+		for _, x := range xs {
+			for _, y := range ys {
+				if x == f.X && y == f.Y {
+					continue
+				}
+				g := f
+				g.X, g.Y = x, y
+				out = append(out, g)
+			}
+		}
+	}
+	return out
+}
+
+func condFactsRaw(cond ssa.Value, truth bool, iff *ssa.If) []Fact {
 	switch c := cond.(type) {
 	case *ssa.UnOp:
 		if c.Op == token.NOT {
-			return condFacts(c.X, !truth, iff)
+			return condFactsRaw(c.X, !truth, iff)
 		}
 	case *ssa.BinOp:
 		switch c.Op {
